@@ -724,7 +724,7 @@ class ImmutableDirectoryURIVerifier(DirectoryURIVerifier):
     INNER_URI_CLASS=CHKFileVerifierURI
 
 
-class UnknownURI:
+class UnknownURI(_BaseURI):
     def __init__(self, uri, error=None):
         self._uri = uri
         self._error = error
